@@ -24,3 +24,15 @@ func VerifBackoffSequence(min, max time.Duration, jitter float32, n int) (ds []t
 	b.reset()
 	return ds, b.duration()
 }
+
+// VerifReceiveBufferLen returns how many received events a client socket has parked until its
+// CONNECT reply arrives (one entry per handler of each event), or -1 for another socket type.
+func VerifReceiveBufferLen(socket ClientSocket) int {
+	s, ok := socket.(*clientSocket)
+	if !ok {
+		return -1
+	}
+	s.receiveBufferMu.Lock()
+	defer s.receiveBufferMu.Unlock()
+	return len(s.receiveBuffer)
+}
